@@ -546,6 +546,119 @@ def mangled_declaration_rule(ctx):
     return obs
 
 
+def wave9_rules(ctx):
+    """obligations added after the ninth wave of seeded changes"""
+    import absint as ai
+    ob = ctx.ob
+    tc = ctx.tc
+    obs = []
+    # (1) `wx:for-item` / `wx:for-index` may be left out exactly when the name is the one the parser supplies for a missing attribute
+    #     (each attribute has its own default): the decision is tabulated over the two defaults and a third name
+    defaults = {}
+    for f in tc.fns:
+        if not f.body or f.module[:2] != ["parse", "tag"]:
+            continue
+        for n in sir.walk(f.body):
+            if n.get("k") == "local" and n["pat"].get("k") == "p_ident" and n["pat"]["name"] in ("item_name", "index_name") and n.get("init") is not None:
+                cs = [sir.const_text(x) for x in sir.walk(n["init"], into_closures=True) if x.get("k") == "path" and sir.const_text(x) is not None]
+                if len(cs) == 1:
+                    defaults[n["pat"]["name"]] = cs[0]
+    arms = []
+    for f in tc.fns:
+        if not f.body or f.module[:1] != ["stringify"]:
+            continue
+        for m_ in sir.walk(f.body):
+            if m_.get("k") == "match":
+                for a in m_["arms"]:
+                    if sir.pat_str(a["pat"]).startswith("ElementKind::For") and any(x.get("k") == "lit" and x.get("v") == "wx:for-item" for x in sir.walk(a["body"])):
+                        arms.append((f, a))
+    if len(defaults) != 2 or len(arms) != 1:
+        obs.append(ob("C14.attrs/for-defaults", None, "stringify/tag.rs", "parser defaults %s / printer arm (%d found) not in a form this rule reads" % (defaults, len(arms))))
+    else:
+        f, a = arms[0]
+
+        def hooks(it, e, st):
+            if e.get("k") in ("call", "mcall"):
+                nm = (sir.call_name(e) or "").split("::")[-1]
+                if nm in ("as_str", "as_ref", "is_empty", "clone", "len"):
+                    return None
+                lits = [x["v"] for x in e["args"] if x.get("k") == "lit" and x.get("t") == "str"]
+                if lits and lits[0] in ("wx:for-item", "wx:for-index"):
+                    return [(("Ok", ai.UNIT), st.event(("attr", lits[0])))]
+                if any(g.name == nm and g.body for g in tc.fns):
+                    g = [g for g in tc.fns if g.name == nm and g.body][0]
+                    if (g.ret or "").replace(" ", "") == "bool":
+                        return None   # a predicate: entered
+                    return [(("Ok", ai.UNIT) if "Result" in (g.ret or "") else ai.FREE, st)]
+            return None
+        names = [defaults["item_name"], defaults["index_name"], "x"]
+        wrong, und = [], False
+        for iv in names:
+            for xv in names:
+                it = ai.Interp(hooks=hooks, idx=tc, inline={g.name: g for g in tc.fns if g.body and g.module[:1] == ["stringify"] and not g.base and (g.ret or "").replace(" ", "") == "bool"})
+                def named(v):
+                    return ("T", (ai.FREE, ("E", "StrName", (("name", v), ("location", ai.FREE)))))
+                env = {"stringifier": ai.FREE, "list": ai.FREE, "key": ai.FREE, "item_name": named(iv), "index_name": named(xv)}
+                try:
+                    outs = [o for o in it.run(a["body"], env) if ("$error-exit",) not in o.events]
+                except ai.TooManyPaths:
+                    outs = []
+                if not outs or any(o.tainted for o in outs):
+                    und = True
+                    continue
+                want = (["wx:for-item"] if iv != defaults["item_name"] else []) + (["wx:for-index"] if xv != defaults["index_name"] else [])
+                for o in outs:
+                    got = [ev[1] for ev in o.events if ev[0] == "attr"]
+                    if got != want:
+                        wrong.append("item `%s`, index `%s`: writes %s" % (iv, xv, got or "neither"))
+        obs.append(ob("C14.attrs/for-defaults", False if wrong else None if und else True, ctx.where(f),
+                      "; ".join(sorted(set(wrong))[:3]) if wrong else "each name is left out exactly when it is its own default (%s)" % defaults if not und else "a path through the arm was not followed: not decided",
+                      witness=None if not wrong else "wx:for-item=\"index\" wx:for-index=\"i\" is printed without wx:for-item: `index` then names the item only before printing"))
+    # (2) the stack of scope names is only extended and cut back to a saved depth while nodes are printed: nothing empties or
+    #     replaces it between the registration of the `<wxs>` modules and the last node (sub-template bodies included)
+    EMPTY = {"clear", "drain", "split_off", "pop", "retain", "remove", "swap_remove", "take", "dedup", "reverse", "sort", "insert", "rotate_left", "rotate_right"}
+    probs = []
+    und_stack = []
+    n_ops = 0
+    for f in tc.fns:
+        if not f.body or f.module[:1] != ["stringify"]:
+            continue
+        nodes = list(sir.walk(f.body, into_closures=True))
+        ops = []
+        for i, n in enumerate(nodes):
+            if n.get("k") == "mcall" and sir.expr_str(sir.strip_ref(n["recv"])).endswith("scope_names"):
+                n_ops += 1
+                if n["m"] in EMPTY:
+                    ops.append((i, ".%s()" % n["m"]))
+                elif n["m"] == "truncate":
+                    a0 = sir.strip_ref(n["args"][0]) if n["args"] else None
+                    saved = a0 is not None and a0.get("k") == "path" and any(l.get("k") == "local" and l["pat"].get("name") == a0["segs"][-1] and l.get("init") is not None
+                                                                             and "scope_names" in sir.expr_str(l["init"]) and ".len()" in sir.expr_str(l["init"]).replace(" ", "") for l in nodes)
+                    if not saved:
+                        ops.append((i, ".truncate(%s)" % (sir.expr_str(a0) if a0 is not None else "")))
+            if n.get("k") == "call" and re.search(r"mem::(take|replace|swap)$", sir.call_path(n) or "") and any("scope_names" in sir.expr_str(x) for x in n["args"]):
+                ops.append((i, "mem::%s" % (sir.call_path(n) or "").split("::")[-1]))
+            if n.get("k") == "assign" and sir.expr_str(n["l"]).endswith("scope_names"):
+                ops.append((i, "an assignment"))
+        if not ops:
+            continue
+        prints = [i for i, n in enumerate(nodes) if n.get("k") == "mcall" and n["m"] == "stringify_write"]
+        regs = [i for i, n in enumerate(nodes) if n.get("k") == "mcall" and n["m"] in ("push", "add_scope") and "scope_names" in sir.expr_str(n["recv"]) + n["m"].replace("add_scope", "scope_names")]
+        lo = min(prints + regs) if prints + regs else None
+        hi = max(prints) if prints else None
+        if not prints:
+            und_stack.append(f.name)
+            continue
+        for i, what in ops:
+            if i > lo and i < hi:
+                probs.append("%s: %s on the scope-name stack while nodes are still to be printed" % (f.name, what))
+    obs.append(ob("C14.scope/stack-discipline", False if (probs or n_ops < 5) else None if und_stack else True, "stringify/tag.rs",
+                  "%s empties the stack and prints no node itself: not decided" % und_stack if und_stack and not probs else
+                  "; ".join(probs[:3]) if probs else "%d operations on the stack: reset before the modules are registered and after the last node, otherwise push / cut back to a saved depth" % n_ops,
+                  witness=None if not probs else "<wxs module=\"m\"/><template name=\"t\">{{ m.f() }}</template> prints {{ __INVALID_SCOPE_NAME__.f() }}"))
+    return obs
+
+
 def wave8_rules(ctx):
     """obligations added after the eighth wave of seeded changes"""
     from rules.c02 import FnScope
@@ -712,6 +825,7 @@ def run(ctx):
     obs += scope_rules(ctx)
     obs += mangled_declaration_rule(ctx)
     obs += wave8_rules(ctx)
+    obs += wave9_rules(ctx)
     n = sum(1 for o in obs if o["key"].startswith("C14.children/"))
     if n < 44:
         obs.append(ctx.ob("C14.floor/children", False, "stringify/expr.rs", "only %d variants analysed (floor 44)" % n))
